@@ -94,6 +94,7 @@ type Explorer struct {
 	prefixFresh bool // the last prefix step is an alternative nobody explored yet (work stealing)
 
 	FanoutCap int
+	xValid    int // number of levels of the second solver's stack that match the current decision prefix
 	noFork    bool // set during predicated execution: any need to fork aborts it
 	St        ExStats
 	inconc    []string
@@ -203,8 +204,13 @@ func (ex *Explorer) crossCheckUnsat(extra *Term) {
 		return
 	}
 	ex.St.XChecked++
-	ts := append(append([]*Term{}, ex.pc...), extra)
-	switch ex.xsolver.CheckFresh(ts) {
+	x := ex.xsolver
+	ex.syncX()
+	x.Push()
+	x.Assert(extra)
+	xr := x.Check()
+	x.Pop(1)
+	switch xr {
 	case "sat":
 		ex.St.XDisagree++
 		ex.inconclusive("solver disagreement: " + ex.solver.name + " unsat, " + ex.xsolver.name + " sat")
@@ -212,6 +218,28 @@ func (ex *Explorer) crossCheckUnsat(extra *Term) {
 		ex.St.XUnknown++
 		ex.inconclusive("cross-check solver returned unknown")
 	}
+}
+
+// syncX brings the second solver's assertion stack in line with the path
+// condition: it mirrors the decision stack lazily (one level per decision).
+func (ex *Explorer) syncX() {
+	x := ex.xsolver
+	if x.level > len(ex.pc) {
+		x.Pop(x.level - len(ex.pc))
+	}
+	// levels below xValid are known to hold the current prefix
+	if ex.xValid > x.level {
+		ex.xValid = x.level
+	}
+	if x.level > ex.xValid {
+		x.Pop(x.level - ex.xValid)
+	}
+	for x.level < len(ex.pc) {
+		p := ex.pc[x.level]
+		x.Push()
+		x.Assert(p)
+	}
+	ex.xValid = x.level
 }
 
 // query asks sat(PC ∧ extra) of the main solver; returns sat?, model.
@@ -232,10 +260,8 @@ func (ex *Explorer) query(extra *Term) (bool, map[string]uint64) {
 		// timeout or incompleteness of the first solver: ask the second one
 		ex.St.Fallbacks++
 		x := ex.xsolver
+		ex.syncX()
 		x.Push()
-		for _, p := range ex.pc {
-			x.Assert(p)
-		}
 		x.Assert(extra)
 		r = x.Check()
 		if r == "sat" {
@@ -634,6 +660,9 @@ func (ex *Explorer) next() bool {
 			if ex.solver.level >= len(ex.decisions) {
 				ex.solver.Pop(ex.solver.level - (len(ex.decisions) - 1))
 			}
+			if ex.xValid > len(ex.decisions)-1 {
+				ex.xValid = len(ex.decisions) - 1
+			}
 			return true
 		}
 		ex.decisions = ex.decisions[:len(ex.decisions)-1]
@@ -641,6 +670,7 @@ func (ex *Explorer) next() bool {
 	if ex.solver.level > 0 {
 		ex.solver.Pop(ex.solver.level)
 	}
+	ex.xValid = 0
 	return false
 }
 
